@@ -147,6 +147,28 @@ func fxCallArgs(mpath, callee string, argOps ...uint16) func(tree *ObjectTree) s
 	}
 }
 
+// fxOperands finds the first object with the given opcode inside method mpath and checks its operand count.
+func fxOperands(mpath string, op uint16, want int) func(tree *ObjectTree) string {
+	return func(tree *ObjectTree) string {
+		m := fxAt(tree, mpath)
+		if m == nil {
+			return "method-" + mpath + "-missing"
+		}
+		var all []*Object
+		budget := 100000
+		c11Preorder(tree, m, &all, &budget)
+		for _, o := range all {
+			if o.opcode == op {
+				if n := len(c11Kids(tree, o)); n != want {
+					return fmt.Sprintf("%s-has-%d-operands-want-%d", strings.Replace(pOpcodeName(op), " ", "", -1), n, want)
+				}
+				return ""
+			}
+		}
+		return "no-" + strings.Replace(pOpcodeName(op), " ", "", -1) + "-in-" + mpath
+	}
+}
+
 func c11FixedCases() []fxCase {
 	ret0 := fxMethod(fxNS("", "MAA0"), 1, []byte{byte(pOpReturn), byte(pOpArg0)}) // Method(MAA0,1){Return(Arg0)}
 	return []fxCase{
@@ -210,6 +232,49 @@ func c11FixedCases() []fxCase {
 			tables: [][]byte{fxCat(ret0, fxMethod(fxNS("", "MAA1"), 0,
 				fxPkg([]byte{byte(pOpWhile)}, []byte{byte(pOpOne)}, fxPkg([]byte{byte(pOpIf)}, []byte{byte(pOpOne), byte(pOpContinue)}), fxNS("", "MAA0"), []byte{byte(pOpOne)})))},
 			check: fxCallArgs("\\MAA1", "MAA0", pOpOne)},
+		{id: "K11-match-opcode-operands", what: "Return(Match(Arg0, MGT, 1, MTR, 2, 3)): the match opcodes are raw bytes that follow a TermArg and are read as AML opcodes in the first pass",
+			tables: [][]byte{fxMethod(fxNS("", "MAA1"), 1, []byte{byte(pOpReturn), byte(pOpMatch), byte(pOpArg0), 5, 0x0a, 1, 0, 0x0a, 2, 0x0a, 3})},
+			check:  fxOperands("\\MAA1", pOpMatch, 6)},
+		{id: "K12-varpackage-element-count", what: "Store(VarPackage(2){1,2}, Local0): the element count of a VarPackage is a TermArg, the opcode table reads it as a raw byte",
+			tables: [][]byte{fxMethod(fxNS("", "MAA1"), 0, []byte{byte(pOpStore)}, fxPkg([]byte{byte(pOpVarPackage)}, []byte{0x0a, 2, 0x0a, 1, 0x0a, 2}), []byte{byte(pOpLocal0)})},
+			check:  fxOperands("\\MAA1", pOpStore, 2)},
+		{id: "F8-tostring-length-operand", what: "Store(ToString(Arg0, 3, ), Local0): ToString takes a length operand before its target; the opcode table listed two operands",
+			tables: [][]byte{fxMethod(fxNS("", "MAA1"), 1, []byte{byte(pOpStore), byte(pOpToString), byte(pOpArg0), 0x0a, 3, 0, byte(pOpLocal0)})},
+			check: func(tree *ObjectTree) string {
+				if s := fxOperands("\\MAA1", pOpToString, 3)(tree); s != "" {
+					return s
+				}
+				return fxOperands("\\MAA1", pOpStore, 2)(tree)
+			}},
+		{id: "K13-loadtable-six-operands", what: "Store(LoadTable(\"A\",\"B\",\"C\",\"D\",\"E\",1), Local0): LoadTable has six operands, the opcode table lists seven, so it swallows what follows (pinned by the parser-testsuite dump)",
+			tables: [][]byte{fxMethod(fxNS("", "MAA1"), 0, []byte{byte(pOpStore)}, c11OpBytes(pOpLoadTable),
+				[]byte{0x0d, 'A', 0, 0x0d, 'B', 0, 0x0d, 'C', 0, 0x0d, 'D', 0, 0x0d, 'E', 0, 0x0a, 1}, []byte{byte(pOpLocal0)})},
+			check: func(tree *ObjectTree) string {
+				if s := fxOperands("\\MAA1", pOpLoadTable, 6)(tree); s != "" {
+					return s
+				}
+				return fxOperands("\\MAA1", pOpStore, 2)(tree)
+			}},
+		{id: "K14-alias-named-after-its-source", what: "Name(NAA0,1) Alias(NAA0, NAA1): the alias object must be found as \\NAA1; it takes the name of its first operand (the source)",
+			tables: [][]byte{fxCat(fxName(fxNS("", "NAA0"), fxOne...), []byte{byte(pOpAlias)}, fxNS("", "NAA0"), fxNS("", "NAA1"))},
+			check: func(tree *ObjectTree) string {
+				n := 0
+				for _, k := range c11ScopeKids(tree, tree.ObjectAt(0)) {
+					if string(k.name[:]) == "NAA0" {
+						n++
+					}
+				}
+				found := false
+				for _, k := range c11ScopeKids(tree, tree.ObjectAt(0)) {
+					if k.opcode == pOpAlias && string(k.name[:]) == "NAA1" {
+						found = true
+					}
+				}
+				if !found {
+					return fmt.Sprintf("alias-not-named-NAA1-and-%d-objects-named-NAA0", n)
+				}
+				return ""
+			}},
 		{id: "K10-indexfield-answers-to-index-unit-name", what: "a reference to the field unit used as index of an IndexField resolves to the IndexField declaration, which carries that name",
 			tables: [][]byte{fxCat(
 				fxCat(c11OpBytes(pOpOpRegion), fxNS("", "RAA0"), []byte{0, 0x0a, 0, 0x0a, 0x10}),
